@@ -1,6 +1,6 @@
 (* Properties_C15.v — C15: --dry-run changes nothing.  Statement only; proof in Proofs_Driver.v.
    The model of the run is Driver.run_patch over the file-system world of World.v. *)
-From PatchV Require Import Base Lines Hunk Options World Driver Proofs_Driver.
+From PatchV Require Import Base Lines Hunk Options Parser World Driver Proofs_Driver Proofs_Predict.
 
 (* With --dry-run, for every option record, every patch text (from standard input or from the file named by -i), every
    tree, umask and injected operation failure: the tree after the run is the tree before it (same paths, bytes, modes,
@@ -11,6 +11,16 @@ Theorem dry_run_pure : forall o, dry_run o = true -> forall stdin w,
   only_reads (trace w) (trace (rr_world (run_patch o stdin w))).
 Proof. exact Proofs_Driver.dry_run_pure. Qed.
 Print Assumptions dry_run_pure.
+
+(* --dry-run predicts the real outcome, section by section: when the real run of a section ends normally, the dry run of
+   the same section from the same state (same tree, same driver state) ends normally too, has consumed the same part of the
+   patch, and reports the same: the same failure flag (the section's contribution to the exit status) and the same
+   per-hunk lines and summaries ([seen] = failure flag and report text).  set_dry o is o with --dry-run. *)
+Theorem dry_run_predicts : forall o st should p s w st_r s_r w_r,
+  process_section o st should p s w = (Ok (st_r, s_r), w_r) ->
+  exists st_d w_d, process_section (set_dry o) st should p s w = (Ok (st_d, s_r), w_d) /\ seen st_d = seen st_r.
+Proof. exact Proofs_Predict.dry_run_predicts. Qed.
+Print Assumptions dry_run_predicts.
 
 Local Open Scope string_scope.
 (* non-vacuity: a dry run that finds work to do (a hunk applies, exit 0) and one that fails a hunk (exit 1) *)
